@@ -74,6 +74,12 @@ def _families(tier):
                 continue
             fams.append(("cube3d", [cube[i] for i in sub], None))
             fams.append(("pert3d", [pcube[i] for i in sub], None))
+    # the perturbed 2-D sets in very small / large units (exact powers of two; cut-offs are derived from the distances)
+    for k in (3, 4):
+        for j, sub in enumerate(itertools.combinations(range(9), k)):
+            if j % (9 if tier == "quick" else 3) == 1:
+                fams.append(("pert2d-unit2^-14", [[c * 2.0 ** -14 for c in pgrid[i]] for i in sub], None))
+                fams.append(("pert2d-unit2^12", [[c * 2.0 ** 12 for c in pgrid[i]] for i in sub], None))
     # periodic: 3x3 grid in a (3,3) cell, perturbed copy in a (3,3.5) cell
     for k in (3, 4):
         for j, sub in enumerate(itertools.combinations(range(9), k)):
@@ -277,7 +283,7 @@ def check(case):
     rank = case["rank"]
     w = np.array([float(rank[i]) * 1.5 - 2.0 for i in range(n)])
     D = _sqdist(P, cell)
-    scale = max(1.0, float(D.max()))
+    scale = float(D.max()) if D.max() > 0 else 1.0  # every tolerance is relative to the largest squared distance
     tie_free = case["label"].startswith("pert")
     r.states = 0
     r.transitions = 0
